@@ -1,12 +1,12 @@
 #!/bin/sh
 # Build the overlay interpreter used by every check, offline, from files on disk only:
 #   /verif/.venv  = venv of /venv's python 3.12 + /venv's site-packages (pytest, starlette, ...)
-#                   + crosshair-tool / z3-solver / jsonschema from /opt/veriftools/wheels.
+#                   + z3-solver / jsonschema from /opt/veriftools/wheels.
 # Idempotent: `./setup.sh` again is a no-op when the marker matches.
 set -e
 cd "$(dirname "$0")"
-MARK=.venv/.ok-v1
-if [ -f "$MARK" ] && .venv/bin/python -c "import z3, crosshair, jsonschema" 2>/dev/null; then
+MARK=.venv/.ok-v2
+if [ -f "$MARK" ] && .venv/bin/python -c "import z3, jsonschema" 2>/dev/null; then
     exit 0
 fi
 rm -rf .venv
@@ -14,6 +14,6 @@ rm -rf .venv
 SP=$(.venv/bin/python -c "import sysconfig; print(sysconfig.get_paths()['purelib'])")
 printf "import site; site.addsitedir('/venv/lib/python3.12/site-packages')\n" > "$SP/_verif_overlay.pth"
 PIP_NO_INDEX=1 .venv/bin/python -m pip install --quiet --no-index --find-links /opt/veriftools/wheels \
-    crosshair-tool z3-solver jsonschema cvc5 >/dev/null
-.venv/bin/python -c "import z3, crosshair, jsonschema, baize; print('overlay ok', z3.get_version_string())"
+    z3-solver jsonschema >/dev/null
+.venv/bin/python -c "import z3, jsonschema, baize; print('overlay ok', z3.get_version_string())"
 touch "$MARK"
